@@ -1,13 +1,13 @@
 (** Extraction of the executable runner model (Runner/Lts.v, RunModel.v) and of the trace
     predicates the C13/C14 theorems speak about (LockDiscipline.v: order_ok, discipline_ok;
-    Protocol.v: tx_ok, receiver_spec).
+    Protocol.v: tx_ok, receiver_spec; RunLts.v: the timed layer for send deadlines and the LTS of Run).
     Directives used: those of ExtrOcamlBasic only (bool, option, unit, prod, list, sumbool,
     sumor -> OCaml types; fst/snd/andb/orb/negb inlined). nat / ascii stay Coq inductives;
     Coq's [string] type is deliberately not used by any extracted function. Z and its operations
     are extracted only because ocaml/common.ml (shared glue) refers to them. *)
 From Coq Require Extraction ExtrOcamlBasic.
 From Coq Require Import Arith ZArith List Ascii.
-From CanVerif Require Import Runner.Lts Runner.RunModel Runner.LockDiscipline Runner.Protocol.
+From CanVerif Require Import Runner.Lts Runner.RunModel Runner.LockDiscipline Runner.Protocol Runner.RunLts.
 Extraction Language OCaml.
 Extraction "model.ml"
   step_fn init cfg_of_list run accepts first_reject
@@ -15,5 +15,8 @@ Extraction "model.ml"
   order_ok discipline_ok raw_discipline
   run_receiver receiver_spec rx_trace
   contains run_result run_spec wrap_receiver wrap_transmitter wrap_run closed_text
+  send_timeout tstep tinit trun tfirst_reject cyc_of_list
+  qstep qinit qrun q_clean q_is_returned q_is_connected q_is_running
+  shape_accepts rframe_of_shape
   Nat.eqb Nat.add
   Z.add Z.mul Z.sub Z.ltb Z.leb Z.eqb Z.of_nat Z.to_nat Z.pow Z.modulo Z.div.
